@@ -120,6 +120,10 @@ def setup_env():
     import logging
 
     logging.getLogger("arim").setLevel(logging.ERROR)
+    if os.environ.get("VERIF_COV"):
+        import covtrace
+
+        covtrace.install(sys.argv[1].upper() if len(sys.argv) > 1 else "?", SRC)
     return hsh
 
 
